@@ -8,6 +8,8 @@ mod wasm_driver;
 
 mod c11;
 mod c12;
+mod c14;
+mod c15;
 mod ev;
 mod vgen;
 mod mv;
@@ -67,6 +69,8 @@ fn main() {
                 .map(|c| match prop {
                     "c12" => c12::replay(c, &ls),
                     "c11" => c11::replay(c),
+                    "c14" => c14::replay(c),
+                    "c15" => c15::replay(c, &ls),
                     _ => {
                         eprintln!("unknown property {prop}");
                         std::process::exit(2)
@@ -79,6 +83,8 @@ fn main() {
             let out = match prop {
                 "c12" => c12::record(seed, n),
                 "c11" => c11::record(seed, n),
+                "c14" => c14::record(seed, n),
+                "c15" => c15::record(seed, n),
                 _ => {
                     eprintln!("unknown property {prop}");
                     std::process::exit(2)
